@@ -1,1 +1,280 @@
-fn main(){ let v: serde_json::Value = serde_json::from_str("{\"a\":1}").unwrap(); println!("{}", v); }
+mod interp;
+mod payload;
+mod sched;
+mod waker;
+
+use kanal::verif as kv;
+use payload::*;
+use sched::{Ev, Strat};
+use serde_json::Value;
+use std::collections::HashMap;
+use std::io::{BufRead, BufWriter, Write};
+
+fn run_dispatch(prog: &Value, strat: Strat) -> interp::RunResult {
+    match prog.get("payload").and_then(|x| x.as_str()).unwrap_or("w1") {
+        "w1" => interp::run::<W1>(prog, strat),
+        "h4" => interp::run::<H4>(prog, strat),
+        "b3" => interp::run::<B3>(prog, strat),
+        "p5" => interp::run::<P5>(prog, strat),
+        "u8" => interp::run::<U8>(prog, strat),
+        "u16" => interp::run::<U16>(prog, strat),
+        "z0" => interp::run::<Z0>(prog, strat),
+        "z64" => interp::run::<Z64>(prog, strat),
+        x => panic!("unknown payload {}", x),
+    }
+}
+
+fn strat_from(v: &Value, seed: u64) -> Strat {
+    let mut s = Strat::default();
+    s.seed = seed;
+    let f = |k: &str, d: f64| v.get(k).and_then(|x| x.as_f64()).unwrap_or(d);
+    // per-seed variety of the scheduling parameters unless pinned by the program
+    let mix = seed.wrapping_mul(0x9E3779B97F4A7C15);
+    let pick = |sh: u32, opts: &[f64]| opts[((mix >> sh) % opts.len() as u64) as usize];
+    s.p_switch = f("p_switch", pick(8, &[0.05, 0.2, 0.5, 1.0]));
+    s.spin_bias = f("spin_bias", pick(16, &[0.1, 0.5, 0.9, 0.995]));
+    s.q_tick = f("q_tick", pick(24, &[0.0, 0.05, 0.3, 1.0]));
+    s.p_spurious = f("p_spurious", pick(32, &[0.0, 0.05, 0.3]));
+    s.max_spurious = v.get("max_spurious").and_then(|x| x.as_u64()).unwrap_or(2) as u32;
+    s.parallelism = v.get("parallelism").and_then(|x| x.as_u64()).unwrap_or(if (mix >> 40) % 4 == 0 { 1 } else { 16 });
+    if let Some(fr) = v.get("freeze").and_then(|x| x.as_array()) {
+        if fr.len() == 2 {
+            s.freeze = Some((fr[0].as_u64().unwrap_or(0) as usize, fr[1].as_u64().unwrap_or(0)));
+        }
+    }
+    if let Some(sc) = v.get("script").and_then(|x| x.as_array()) {
+        s.script = sc.iter().map(|x| x.as_u64().unwrap_or(0) as u32).collect();
+    }
+    s.max_steps = v.get("max_steps").and_then(|x| x.as_u64()).unwrap_or(100_000);
+    s
+}
+
+struct Emit {
+    ids: HashMap<usize, usize>,
+}
+
+fn kind_name(k: u32) -> &'static str {
+    match k {
+        kv::A8_LOAD => "a8_load",
+        kv::A8_STORE => "a8_store",
+        kv::A8_CAS => "a8_cas",
+        kv::A8_RMW => "a8_rmw",
+        kv::AB_LOAD => "ab_load",
+        kv::AB_STORE => "ab_store",
+        kv::AB_CAS => "ab_cas",
+        kv::AB_RMW => "ab_rmw",
+        kv::FENCE => "fence",
+        kv::CELL_GET => "cell_get",
+        kv::PTR_READ => "ptr_read",
+        kv::PTR_WRITE => "ptr_write",
+        kv::PTR_COPY => "ptr_copy",
+        kv::PARK => "park",
+        kv::UNPARK => "unpark",
+        kv::YIELD => "yield",
+        kv::THREAD_CURRENT => "current",
+        kv::NOW => "now",
+        kv::PARALLELISM => "parallelism",
+        kv::OBJ_DEAD => "dead",
+        kv::OWNER_SLOT => "owner_slot",
+        kv::THREAD_CLONE => "thread_clone",
+        kv::NOTE => "note",
+        kv::USIZE_LOAD => "usize_load",
+        kv::FIELD_READ => "field_read",
+        kv::FIELD_WRITE => "field_write",
+        sched::H_START => "start",
+        sched::H_FINISH => "finish",
+        sched::H_BEGIN => "B",
+        sched::H_END => "E",
+        sched::H_DROP => "D",
+        sched::WK_CLONE => "wk_clone",
+        sched::WK_WAKE => "wk_wake",
+        sched::WK_DROP => "wk_drop",
+        sched::WAIT_WAKER => "wait_waker",
+        sched::H_PHASE => "phase",
+        sched::H_TICK => "tick",
+        sched::H_POINT => "point",
+        _ => "other",
+    }
+}
+
+impl Emit {
+    fn aid(&mut self, a: usize) -> usize {
+        if a == 0 {
+            return 0;
+        }
+        let n = self.ids.len() + 1;
+        *self.ids.entry(a).or_insert(n)
+    }
+}
+
+fn owner(a: usize, out: &sched::Outcome) -> i64 {
+    if a == 0 {
+        return -1;
+    }
+    for (i, (lo, hi)) in out.stacks.iter().enumerate() {
+        if a >= *lo && a < *hi {
+            return i as i64;
+        }
+    }
+    for (addr, size, p, _f) in out.regions.iter().rev() {
+        if a >= *addr && a < addr + size {
+            return *p as i64;
+        }
+    }
+    -1
+}
+
+fn peek_json(p: &sched::PeekLite, out: &sched::Outcome) -> String {
+    let wl: Vec<i64> = p.wl.iter().map(|a| owner(*a, out)).collect();
+    format!("{{\"q\":{:?},\"wl\":{:?},\"rb\":{},\"sc\":{},\"rc\":{}}}", p.q, wl, p.rb, p.sc, p.rc)
+}
+
+fn tnum(t: usize) -> i64 {
+    if t == sched::CTRL {
+        9
+    } else {
+        t as i64
+    }
+}
+
+fn write_raw(w: &mut impl Write, x: usize, e: &Ev, em: &mut Emit, out: &sched::Outcome) {
+    let ad = em.aid(e.addr);
+    let own = owner(e.addr, out);
+    let mut s = format!(
+        "{{\"x\":{},\"t\":{},\"k\":\"{}\",\"ad\":{},\"own\":{},\"a\":{},\"b\":{},\"r\":{},\"r2\":{},\"now\":{}",
+        x,
+        tnum(e.t),
+        kind_name(e.kind),
+        ad,
+        own,
+        e.a,
+        e.b,
+        e.r,
+        e.r2,
+        e.now / sched::TICK
+    );
+    if e.kind == kv::PTR_COPY {
+        let src = em.aid(e.a as usize);
+        s.push_str(&format!(",\"src\":{},\"srcown\":{}", src, owner(e.a as usize, out)));
+    }
+    if let Some(x) = &e.extra {
+        s.push(',');
+        s.push_str(x);
+    }
+    if let Some(p) = &e.peek {
+        s.push_str(",\"peek\":");
+        s.push_str(&peek_json(p, out));
+    }
+    s.push('}');
+    writeln!(w, "{}", s).unwrap();
+}
+
+fn write_hist(w: &mut impl Write, x: usize, e: &Ev) {
+    let t = e.now / sched::TICK;
+    let p = tnum(e.t);
+    match e.kind {
+        sched::H_BEGIN | sched::H_END => {
+            let k = if e.kind == sched::H_BEGIN { "B" } else { "E" };
+            writeln!(w, "{{\"e\":\"{}\",\"p\":{},\"t\":{},{}}}", k, p, t, e.extra.as_deref().unwrap_or("\"o\":0")).unwrap();
+        }
+        sched::H_DROP => writeln!(w, "{{\"e\":\"D\",\"p\":{},\"t\":{},\"m\":{}}}", p, t, e.a).unwrap(),
+        sched::WK_WAKE => writeln!(w, "{{\"e\":\"W\",\"p\":{},\"t\":{},\"w\":{}}}", p, t, e.a).unwrap(),
+        sched::H_PHASE => writeln!(w, "{{\"e\":\"Q\",\"p\":{},\"t\":{},\"ph\":{}}}", p, t, e.a).unwrap(),
+        sched::WAIT_WAKER => writeln!(w, "{{\"e\":\"A\",\"p\":{},\"t\":{},\"w\":{},\"r\":{}}}", p, t, e.a, e.r).unwrap(),
+        _ => {}
+    }
+    let _ = x;
+}
+
+fn main() {
+    std::panic::set_hook(Box::new(|_| {}));
+    let args: Vec<String> = std::env::args().collect();
+    let get = |k: &str| args.iter().position(|a| a == k).and_then(|i| args.get(i + 1)).cloned();
+    let cmd = args.get(1).cloned().unwrap_or_default();
+    match cmd.as_str() {
+        "run" => {
+            let progs = get("--programs").expect("--programs");
+            let execs: u64 = get("--execs").and_then(|x| x.parse().ok()).unwrap_or(1);
+            let seed0: u64 = get("--seed").and_then(|x| x.parse().ok()).unwrap_or(1);
+            let mut hist = get("--hist").map(|p| BufWriter::new(std::fs::File::create(p).unwrap()));
+            let mut raw = get("--raw").map(|p| BufWriter::new(std::fs::File::create(p).unwrap()));
+            let mut meta = get("--meta").map(|p| BufWriter::new(std::fs::File::create(p).unwrap()));
+            let f = std::io::BufReader::new(std::fs::File::open(progs).unwrap());
+            let mut x = 0usize;
+            let t0 = std::time::Instant::now();
+            let mut total_ev = 0usize;
+            for (pi, line) in f.lines().enumerate() {
+                let line = line.unwrap();
+                if line.trim().is_empty() {
+                    continue;
+                }
+                let prog: Value = serde_json::from_str(&line).unwrap();
+                let n_exec = prog.get("execs").and_then(|x| x.as_u64()).unwrap_or(execs);
+                for k in 0..n_exec {
+                    let seed = prog
+                        .get("strat")
+                        .and_then(|s| s.get("seed"))
+                        .and_then(|s| s.as_u64())
+                        .unwrap_or(seed0.wrapping_mul(1_000_003).wrapping_add(pi as u64 * 7919 + k));
+                    let strat = strat_from(prog.get("strat").unwrap_or(&Value::Null), seed);
+                    x += 1;
+                    if let Some(m) = meta.as_mut() {
+                        // written before the execution so that a crash is attributable
+                        writeln!(m, "{{\"x\":{},\"prog\":{},\"seed\":{},\"begin\":true}}", x, pi, seed).unwrap();
+                        m.flush().unwrap();
+                    }
+                    let mut rr = run_dispatch(&prog, strat.clone());
+                    {
+                        let o = &mut rr.out;
+                        let extra: Vec<(usize, usize, usize, usize)> = o
+                            .log
+                            .iter()
+                            .filter(|e| e.kind == kv::FIELD_WRITE && e.t != sched::CTRL && owner(e.addr, o) < 0)
+                            .map(|e| (e.addr.saturating_sub(96), 192, e.t, 99))
+                            .collect();
+                        o.regions.extend(extra);
+                    }
+                    let out = &rr.out;
+                    total_ev += out.log.len();
+                    if let Some(h) = hist.as_mut() {
+                        let cnt = |c: char| -> usize {
+                            prog["procs"].as_array().map(|a| a.iter().map(|p| p["handles"].as_array().map(|h| h.iter().filter(|x| x.as_str().unwrap_or("").ends_with(c)).count()).unwrap_or(0)).sum()).unwrap_or(0)
+                        };
+                        let cap = match prog.get("cap").and_then(|c| c.as_u64()) { Some(c) => c, None => 1_000_000 };
+                        let pl = prog.get("payload").and_then(|x| x.as_str()).unwrap_or("w1");
+                        writeln!(h, "{{\"e\":\"X\",\"x\":{},\"prog\":{},\"t\":0,\"cap\":{},\"sc\":{},\"rc\":{},\"drops\":{},\"tagged\":{}}}", x, pi, cap, cnt('s'), cnt('r'), !matches!(pl, "u8" | "u16"), !matches!(pl, "z0" | "z64")).unwrap();
+                        for e in &out.log {
+                            write_hist(h, x, e);
+                        }
+                        let st: Vec<String> = out.stuck_threads.iter().map(|t| t.to_string()).collect();
+                        writeln!(h, "{{\"e\":\"Z\",\"x\":{},\"stuck\":{},\"budget\":{},\"stuck_threads\":[{}],\"t\":0}}", x, out.stuck, out.over_budget, st.join(",")).unwrap();
+                    }
+                    if let Some(r) = raw.as_mut() {
+                        let mut em = Emit { ids: HashMap::new() };
+                        writeln!(r, "{{\"x\":{},\"k\":\"reset\",\"prog\":{}}}", x, pi).unwrap();
+                        for e in &out.log {
+                            write_raw(r, x, e, &mut em, out);
+                        }
+                        writeln!(r, "{{\"x\":{},\"k\":\"end\",\"stuck\":{},\"budget\":{},\"peek\":{}}}", x, out.stuck, out.over_budget, out.final_peek.as_ref().map(|p| peek_json(p, out)).unwrap_or("{}".to_string())).unwrap();
+                    }
+                    if let Some(m) = meta.as_mut() {
+                        let d: Vec<String> = out.decisions.iter().map(|d| d.to_string()).collect();
+                        writeln!(
+                            m,
+                            "{{\"x\":{},\"prog\":{},\"seed\":{},\"steps\":{},\"events\":{},\"stuck\":{},\"budget\":{},\"diverged\":{},\"strat\":{{\"seed\":{},\"p_switch\":{},\"spin_bias\":{},\"q_tick\":{},\"p_spurious\":{},\"max_spurious\":{},\"parallelism\":{}}},\"decisions\":[{}]}}",
+                            x, pi, seed, out.steps, out.log.len(), out.stuck, out.over_budget, out.diverged,
+                            seed, strat.p_switch, strat.spin_bias, strat.q_tick, strat.p_spurious, strat.max_spurious, strat.parallelism,
+                            d.join(",")
+                        )
+                        .unwrap();
+                    }
+                }
+            }
+            eprintln!("executions={} events={} elapsed={:?}", x, total_ev, t0.elapsed());
+        }
+        _ => {
+            eprintln!("usage: kh run --programs P.ndjson [--execs N] [--seed S] [--hist H] [--raw R] [--meta M]");
+            std::process::exit(2);
+        }
+    }
+}
